@@ -218,7 +218,7 @@ def reflection(ctx, rng, idx):
         if not tol < 1e-3:
             ctx.skip("implicit:ill-conditioned-system")
             return
-    ctx.close(cls + ":time", abs(e1.time - e2.time) / (abs(e1.time) + 1e-300), tol, "reflection/solve-time-differs", {"t": e1.time, "t mirror": e2.time}, cls=cls)
+    _judge_twin(ctx, cls + ":time", abs(e1.time - e2.time) / (abs(e1.time) + 1e-300), tol, "reflection/solve-time-differs", {"t": e1.time, "t mirror": e2.time}, cls, _amp)
     for i in range(model.neq):
         sc = max(np.max(np.abs(f.data[i])), np.max(np.abs(e1.data[i]))) + 1e-300
         if i in odd_components(spec.mname):      # momentum-like: scale by density * wave speed
@@ -251,7 +251,10 @@ def units(ctx, rng, idx):
     r1 = disc.rhs(f); r2 = [x / sc for x, sc in zip(disc2.rhs(f2), rs)]
     if not (_finite(r1) and _finite(r2)):
         raise core.Skip("nonfinite rhs")
-    bitwise = spec.mname in ("convection", "shallowwater", "euler1d", "nozzle") and not reg
+    # python / numpy-scalar `x**2` goes through libm pow, which is not exactly scale covariant in ~1e-5 of the cases: Burgers' flux and
+    # the boundary conditions that square a scalar (insub_cbc, outsub_qtot; 1D boundary states are scalars) are compared with a tolerance
+    scalar_pow = any(b["type"] in ("insub_cbc", "outsub_qtot") for b in (spec.bcL, spec.bcR))
+    bitwise = spec.mname in ("convection", "shallowwater", "euler1d", "nozzle") and not reg and not scalar_pow
     fs = _fluxscale(spec.mname, model, spec.prim)
     dxmin = float(np.min(mesh.vol()))
     tag = "%s/%s" % (spec.mname, spec.flux)
@@ -293,7 +296,7 @@ def units(ctx, rng, idx):
     else:
         cls = "units:implicit" if implicit else "units:tolerance"
         tol = itol if implicit else (1e-7 if reg else 1e-10)
-        ctx.close(cls + ":time", abs(e1.time - t2) / (abs(e1.time) + 1e-300), tol, "units/solve-time-not-rescaled", {"t": e1.time, "t twin / scale": t2}, cls=cls)
+        _judge_twin(ctx, cls + ":time", abs(e1.time - t2) / (abs(e1.time) + 1e-300), tol, "units/solve-time-not-rescaled", {"t": e1.time, "t twin / scale": t2}, cls, _amp)
         for i in range(model.neq):
             sc = max(np.max(np.abs(f.data[i])), np.max(np.abs(e1.data[i]))) + 1e-300
             if i in odd_components(spec.mname):
